@@ -39,6 +39,10 @@ def assumptions(run):
                'parent (registered, name taken, same-name creation refused) while another live interface lists it (sub-interfaces and '
                '...Ref share wires) or a port is attached to it; a signal dropped from its only interface and used by nothing is not '
                'judged either way')
+    run.assume('refusals are part of the behaviour, not debugging aids: they must also happen in an interpreter started with -O '
+               '(asserts stripped); a reduced pass of all fault kinds and integrity rejections runs in such a child interpreter')
+    run.assume('a block is a primitive (its ports register as sink/source) when it has a propagate()/clock() method at the moment the '
+               'port is declared, wherever the method is bound (class, or instance via types.MethodType as AbstractLogic users do)')
     run.assume('the verdict of checkIntegrity depends on the hierarchy as it is when called, not on earlier calls in the process')
     run.assume('a hierarchy is any Logic object handed to checkIntegrity: drivers outside the checked sub-hierarchy still count as drivers')
 
@@ -47,7 +51,7 @@ SEQ_KEYS = {'fault_accepted': 'c11_fault_accepted', 'accept_raised': 'c11_accept
             'raised_elsewhere': 'c11_raised_elsewhere', 'earlier_replaced': 'c11_earlier_replaced'}
 
 
-def judge_plan(run, plan, kind, faulty, res):
+def judge_plan(run, plan, kind, faulty, res, interpreter=None):
     run.ev(res['judged'])
     run.count('seq_steps_judged', res['judged'])
     for x in res['exc']:
@@ -64,9 +68,13 @@ def judge_plan(run, plan, kind, faulty, res):
     fields = dict(kind=kind, faulty=bool(faulty), op=step['op'], outcome=res['outcome'])
     if res['outcome'] == 'earlier_replaced':
         fields['what'] = res['what']
-    run.violation(SEQ_KEYS[res['outcome']], fields, dict(monitor='seq', kind=kind, faulty=faulty, plan=plan, step=res['step']),
+    kase = dict(monitor='seq', kind=kind, faulty=faulty, plan=plan, step=res['step'])
+    if interpreter:
+        fields['interpreter'] = interpreter
+        kase['interpreter'] = interpreter
+    run.violation(SEQ_KEYS[res['outcome']], fields, kase,
                   expected='raise at the faulting step only; earlier driver/child/wire stay registered',
-                  observed=res.get('detail'), what='%s %s: %s' % (kind, res['outcome'], res.get('detail')))
+                  observed=res.get('detail'), what='%s%s %s: %s' % ('[python -O] ' if interpreter else '', kind, res['outcome'], res.get('detail')))
     return False
 
 
@@ -217,6 +225,61 @@ def run_integrity(run, tier, seed, shard, deadline):
     run.extra['integrity_blocks'] = len(per_block)
 
 
+def run_child_O(job, d, timeout):
+    import json
+    import os
+    import subprocess
+    from .common import PYTHON, ROOT
+    jp, op = os.path.join(d, 'c11opt-job.json'), os.path.join(d, 'c11opt-out.json')
+    json.dump(job, open(jp, 'w'))
+    env = dict(os.environ, PYTHONOPTIMIZE='1', PYTHONHASHSEED='0', MPLBACKEND='Agg')
+    try:
+        p = subprocess.run([PYTHON, '-O', '-m', 'vlib.c11opt', jp, op], cwd=ROOT, env=env, stdout=subprocess.DEVNULL, stderr=subprocess.PIPE, timeout=timeout)
+    except subprocess.TimeoutExpired:
+        return None, 'child interpreter (-O) hit the %ds watchdog' % timeout
+    if not os.path.exists(op):
+        return None, 'child interpreter (-O) died rc=%s: %s' % (p.returncode, (p.stderr or b'').decode(errors='replace')[-300:])
+    return json.load(open(op)), None
+
+
+def optimized_pass(run, tier, seed):
+    """the refusal clauses once more in an interpreter started with -O: an error path must not be an assert"""
+    from .common import run_dir
+    n_plans, n_blocks = (500, 12) if tier == 'quick' else (4000, 60)
+    with run_dir() as d:
+        out, err = run_child_O(dict(seed=seed, tier=tier, n_plans=n_plans, n_blocks=n_blocks), d, 300 if tier == 'quick' else 1200)
+    if err or 'import_failed' in (out or {}):
+        run.inconclusive.append(err or 'py4hw failed to import under -O: %s' % out['import_failed'])
+        return
+    ev = dict(optimize_flag=out['optimize'], plans=0, faulting_steps_reached=0, integrity_cases=0, integrity_must_raise=0)
+    if not out['optimize']:
+        run.inconclusive.append('the child interpreter did not run optimized')
+    for r in out['seq']:
+        if r.get('discarded'):
+            continue
+        ev['plans'] += 1
+        ev['faulting_steps_reached'] += r['res']['faults']
+        if r['faulty']:
+            run.nt(stable_hash(['-O', r['i'], r['kind']]))
+        judge_plan(run, r.get('plan') or [], r['kind'], r['faulty'], r['res'], interpreter='-O')
+    for r in out['integ']:
+        res = r['res']
+        ev['integrity_cases'] += 1
+        ev['integrity_must_raise'] += int(bool(res.get('expected')))
+        run.ev()
+        if res['outcome'] in ('missed', 'false_alarm'):
+            case = dict(r['case'], interpreter='-O')
+            run.violation('c11_integrity_' + res['outcome'], dict(outcome=res['outcome'], fault=r['fault'], interpreter='-O',
+                                                                  dut_structural=res['info'].get('dut_structural')), case,
+                          expected='raise' if res['expected'] else 'return', observed=res.get('raised') or 'returned',
+                          what='[python -O] checkIntegrity %s: %s%r fault=%r' % (res['outcome'], case['block'], case['cfg'], case.get('fault')))
+        elif res['outcome'] in ('crash', 'harness_mismatch'):
+            run.inconclusive.append('-O pass: integrity harness %s: %s' % (res['outcome'], res.get('detail')))
+    run.extra['optimized_interpreter_pass'] = ev
+    if ev['faulting_steps_reached'] < 0.6 * ev['plans'] or ev['integrity_must_raise'] < 20:
+        run.inconclusive.append('-O pass reached only %d faulting steps / %d integrity rejections' % (ev['faulting_steps_reached'], ev['integrity_must_raise']))
+
+
 def coverage_floor(run, tier):
     pk = run.extra.get('seq_per_kind', {})
     for k in c11gen.KINDS:
@@ -245,6 +308,8 @@ def run_check(run, tier, seed, shard):
     run_sequences(run, tier, seed, shard, t0 + total * 0.5)
     if not run.too_many:
         run_integrity(run, tier, seed, shard, t0 + total)
+    if not run.too_many and (shard is None or shard[0] == 0):
+        optimized_pass(run, tier, seed)
     if shard is None:
         coverage_floor(run, tier)
 
@@ -255,6 +320,16 @@ def post_merge(run, tier, seed):
 
 def replay(run, case):
     c = case['case']
+    if c.get('interpreter') == '-O':
+        from .common import run_dir
+        with run_dir() as d:
+            out, err = run_child_O(dict(replay=c), d, 120)
+        res = (out or {}).get('replay') or {}
+        print('replay under python -O (optimize=%s): %s %s' % ((out or {}).get('optimize'), err or res.get('outcome'), res.get('detail', '')))
+        bad = res.get('outcome') not in ('ok', 'excluded') or bool(err)
+        if bad:
+            print('VIOLATION property=C11 replay=replayed')
+        return 1 if bad else 0
     if c.get('monitor') == 'seq':
         res = c11seq.run_plan(c['plan'])
         print('replay sequence kind=%s faulty=%s -> %s %s' % (c.get('kind'), c.get('faulty'), res['outcome'], res.get('detail', '')))
